@@ -223,6 +223,37 @@ def fold_filter_predicates(ctx, m, fn, IL, pattr, objv, flag, site):
     ctx.check(not bad, 'C14.R10', 'KmipEngine._process_locate|filter predicate', site, '%d stored/requested combinations: rejected exactly when the filter is not satisfied' % n,
               'the per-attribute match test of Locate keeps or rejects the wrong objects: %s' % '; '.join(bad[:4]))
 
+def fold_date_range(ctx, m):
+    """C14.R11: the date filter of Locate is an inclusive range."""
+    from ..fold import Folder, Opaque, Unfoldable, Raised
+    ctx.rule('C14.R11', 'the Initial Date filter of Locate: KmipEngine._is_valid_date folded over every (object date, first filter date, second filter date) with values 0..4 and absent filter dates: with no date the object is kept, with one date it is kept iff its date equals it, with two dates iff first <= date <= second - both ends INCLUDED (the lifetime of an object created in the very second a range ends belongs to that range; adjacent ranges cover everything)')
+    fn = m.methods.get('_is_valid_date')
+    ctx.need(fn is not None, 'anchor vanished: KmipEngine._is_valid_date')
+    site = m.site(fn, fn)
+    bad, n = [], 0
+    try:
+        for value in range(5):
+            for start in (None, 0, 1, 2, 3, 4):
+                for end in (None, 0, 1, 2, 3, 4):
+                    if start is None and end is not None:
+                        continue
+                    if start is not None and end is not None and end < start:
+                        continue
+                    fo = Folder(models={'time.asctime': lambda *a: 'date', 'time.gmtime': lambda *a: 0, 'time.strftime': lambda *a: 'date', 'str': str}, methods=m.methods, steps=20000)
+                    selfv = {'__attrs__': ('_logger',), '_logger': Opaque('logger'), '__props__': {}, '__methods__': dict(m.methods), '__class__': 'KmipEngine'}
+                    dt = {'__attrs__': ('value', 'name'), 'value': 'Initial Date', 'name': 'INITIAL_DATE'}
+                    got = fo.call_method(fn, selfv, [dt, value, start, end], {})
+                    n += 1
+                    want = True if start is None else ((value == start) if end is None else (start <= value <= end))
+                    if bool(got) != want or got not in (True, False):
+                        bad.append('object date %s, filter dates (%s, %s): %s, should be %s' % (value, start, end, got, want))
+    except (Unfoldable, Raised) as ex:
+        raise AnalysisError('unrecognised construct: KmipEngine._is_valid_date cannot be folded (%s)' % ex)
+    ctx.check(not bad, 'C14.R11', 'KmipEngine._is_valid_date|inclusive range', site, '%d (date, first, second) combinations: kept exactly inside the inclusive range' % n,
+              'the date filter is not the inclusive range the request names: %s' % '; '.join(bad[:4]))
+    ctx.analysed['date_filter_combinations_folded'] = n
+
+
 def run(ctx):
     src = ctx.src
     m = EngineModel(src)
@@ -372,6 +403,7 @@ def run(ctx):
     stored = gc._parent.targets[0].id
     if flag:
         fold_filter_predicates(ctx, m, fn, IL, pattr, objv, flag, site0)
+    fold_date_range(ctx, m)
     at = enum_table(src, 'AttributeType')
     kinds = getter_kinds(m)
     gf = getter_fields(m)
